@@ -421,7 +421,79 @@ func Select(arr, idx *Term) *Term {
 func distinctLits(a, b *Term) bool {
 	av, aok := a.IntVal()
 	bv, bok := b.IntVal()
-	return aok && bok && av.Cmp(bv) != 0
+	if aok && bok && av.Cmp(bv) != 0 {
+		return true
+	}
+	// a reference allocated by the function itself (ref_*!N) differs from every value that
+	// was already denotable before the allocation: all fresh symbols of the other term are older
+	if n, ok := freshRefSeq(a); ok && maxSeq(b) < n {
+		return true
+	}
+	if n, ok := freshRefSeq(b); ok && maxSeq(a) < n {
+		return true
+	}
+	return false
+}
+
+func freshRefSeq(t *Term) (int, bool) {
+	if t.Op != "var" || !strings.HasPrefix(t.Val, "ref_") {
+		return 0, false
+	}
+	i := strings.LastIndex(t.Val, "!")
+	if i < 0 {
+		return 0, false
+	}
+	n := 0
+	for _, c := range t.Val[i+1:] {
+		if c < '0' || c > '9' {
+			return 0, false
+		}
+		n = n*10 + int(c-'0')
+	}
+	return n, true
+}
+
+var maxSeqCache = map[*Term]int{}
+
+// maxSeq: the largest creation number among the fresh symbols of a term (names end in !N);
+// entry symbols count as 0. Bound variables and literals count as "unknown" (very large) when
+// they could denote anything.
+func maxSeq(t *Term) int {
+	if v, ok := maxSeqCache[t]; ok {
+		return v
+	}
+	m := 0
+	switch t.Op {
+	case "var":
+		if strings.HasPrefix(t.Val, "bv!") {
+			m = 1 << 30
+		} else if i := strings.LastIndex(t.Val, "!"); i >= 0 {
+			n := 0
+			ok := true
+			for _, c := range t.Val[i+1:] {
+				if c < '0' || c > '9' {
+					ok = false
+					break
+				}
+				n = n*10 + int(c-'0')
+			}
+			if ok {
+				m = n
+			}
+		}
+	case "int", "real", "bool":
+	default:
+		for _, a := range t.Args {
+			if s := maxSeq(a); s > m {
+				m = s
+			}
+		}
+	}
+	if len(maxSeqCache) > 200000 {
+		maxSeqCache = map[*Term]int{}
+	}
+	maxSeqCache[t] = m
+	return m
 }
 
 func Store(arr, idx, v *Term) *Term {
